@@ -244,7 +244,7 @@ func checkC07(e *Env) {
 				}
 				found := false
 				for j := next; j < len(bufs); j++ {
-					if bytes.Equal(bufs[j], ent) {
+					if bytes.HasPrefix(bufs[j], ent) { // a consumer may request more than it uses
 						found = true
 						next = j + 1
 						break
@@ -353,16 +353,22 @@ func checkC07(e *Env) {
 				return
 			}
 			w := res.G
-			if consumed[w]+need > len(delivered[w]) {
-				viol(fmt.Sprintf("worker %d call %d returned a mnemonic although crypto/rand.Reader delivered no further bytes to this goroutine", w, res.I), res)
+			// the sentence must encode a slice of the bytes delivered to this goroutine,
+			// later than the slices used by its earlier calls (a consumer may read more
+			// than it uses, so the position is searched, not assumed)
+			got := string(unhex(res.Out))
+			found := -1
+			for k := consumed[w]; k+need <= len(delivered[w]); k++ {
+				if e.Model.Enc(delivered[w][k:k+need], int(op.L)) == got {
+					found = k
+					break
+				}
+			}
+			if found < 0 {
+				viol(fmt.Sprintf("worker %d call %d: NewMnemonic(%d, %s) = %s does not encode any %d consecutive bytes that crypto/rand.Reader delivered to this goroutine after its previous call (%d bytes delivered to it in total)", w, res.I, op.N, ref.Names[op.L], preview(got), need, len(delivered[w])), res)
 				return
 			}
-			want := e.Model.Enc(delivered[w][consumed[w]:consumed[w]+need], int(op.L))
-			consumed[w] += need
-			if got := string(unhex(res.Out)); got != want {
-				viol(fmt.Sprintf("worker %d call %d: NewMnemonic(%d, %s) = %s, but the bytes crypto/rand.Reader delivered to this goroutine during the call encode to %s", w, res.I, op.N, ref.Names[op.L], preview(got), preview(want)), res)
-				return
-			}
+			consumed[w] = found + need
 			obs.Inc("concurrent_calls_matched_per_goroutine")
 		}
 		mu.Lock()
